@@ -27,7 +27,7 @@ func init() {
 			ruleW8(c, t)
 			ruleT1desc(c, t)
 		},
-		explanation: "Round-trip equality of encodings is a statement about values and is not decided.  Decided is that the tables both codecs are generated from agree, exhaustively: the FileDescriptorProto decoded from the rawDesc byte literal and the protobuf struct tags of the generated structs give the same (name, number, wire kind, repeated/map) for every field of every message; every UnmarshalVT has exactly the message's field numbers as cases, each checking the field's wire type and assigning only that field; every MarshalToSizedBufferVT block writes exactly one field with that field's tag bytes, in descending field-number order; every SizeVT block accounts for the same field with the same tag length and the same presence predicate as the marshal block; message-typed fields use nil-presence and scalars zero-suppression; ttRPC server registrations, client calls and the WASM host's exported-function calls cover exactly the descriptor's service methods, each routed to the same-named method with the descriptor's request type, the WASM binding using MarshalVT/UnmarshalVT; the Event enum of the descriptor equals the Go constants.",
+		explanation: "Round-trip equality of encodings is a statement about values and is not decided.  Decided is that the tables both codecs are generated from agree, exhaustively: the FileDescriptorProto decoded from the rawDesc byte literal and the protobuf struct tags of the generated structs give the same (name, number, wire kind, repeated/map) for every field of every message; every UnmarshalVT has exactly the message's field numbers as cases, each checking the field's wire type and assigning only that field; every MarshalToSizedBufferVT block writes exactly one field with that field's tag bytes, in descending field-number order; every SizeVT block accounts for the same field with the same tag length and the same presence predicate as the marshal block; message-typed fields use nil-presence and scalars zero-suppression; ttRPC server registrations, client calls and the WASM host's exported-function calls cover exactly the descriptor's service methods, each routed to the same-named method with the descriptor's request type, the WASM binding using MarshalVT/UnmarshalVT; the Event enum of the descriptor equals the Go constants. Loops over repeated fields in the back-to-front encoder run from the last element to the first.",
 		notDecided: []string{
 			"varint/length arithmetic inside the helpers; UTF-8 checks; unknown fields",
 			"that protoimpl honours the descriptor (trusted)",
